@@ -249,6 +249,27 @@ def fixture_params(name):
     return P
 
 
+def fixture_variants(name):
+    """further valid configurations whose `fit` must also leave every parameter alone (option combinations
+    that take other paths through fit); the first element is always fixture_params(name)"""
+    out = [fixture_params(name)]
+    if name in ("ForecastingGridSearchCV", "ForecastingRandomizedSearchCV"):
+        from sktime.forecasting.naive import NaiveForecaster
+        from sktime.forecasting.model_selection import SlidingWindowSplitter
+        gridkey = "param_grid" if name == "ForecastingGridSearchCV" else "param_distributions"
+        for refit in (True, False):
+            # the data trend upwards: `drift` beats the configured `mean`, so the winner differs from the
+            # candidate the wrapped forecaster was constructed with
+            P = {"forecaster": NaiveForecaster(strategy="mean"),
+                 "cv": SlidingWindowSplitter(fh=[1, 2], initial_window=12, start_with_window=True),
+                 gridkey: {"strategy": ["mean", "drift"]}, "refit": refit}
+            if name == "ForecastingRandomizedSearchCV":
+                P["n_iter"] = 2
+                P["random_state"] = 0
+            out.append(P)
+    return out
+
+
 def call_args(fam, method, D):
     """(args, kwargs) of a valid call of an apply-type method"""
     if fam == "forecaster":
@@ -416,10 +437,12 @@ def _snapshot(v, depth=0):
     if depth > 4:
         return "..."
     if hasattr(v, "get_params") and not isinstance(v, type):
+        # an estimator: its class, its identity, and (recursively) every parameter it holds
         try:
-            return (type(v).__name__, tuple(sorted((k, _snapshot(x, depth + 1)) for k, x in v.get_params(deep=False).items())))
+            return (type(v).__name__, id(v),
+                    tuple(sorted((k, _snapshot(x, depth + 1)) for k, x in v.get_params(deep=False).items())))
         except Exception:
-            return (type(v).__name__, "?")
+            return (type(v).__name__, id(v), "?")
     if isinstance(v, (list, tuple)):
         return tuple(_snapshot(x, depth + 1) for x in v)
     if isinstance(v, dict):
@@ -689,6 +712,38 @@ def _probe_class(module, name, key, table_params, do_fit=True, budget_s=20.0):
                 obs["fit"] = fit_tokens
             except BaseException as e:
                 obs["fitdiag"] = "get_params after fit: " + canon_err(e)
+        # other option combinations: fit must keep the (deep) parameters there as well
+        if obs["fit"] is not None:
+            try:
+                variants = fixture_variants(name)[1:]
+            except BaseException:
+                variants = []
+            for P in variants:
+                try:
+                    import joblib
+                    with warnings.catch_warnings():
+                        warnings.simplefilter("ignore")
+                        ev = cls(**P)
+                        b2 = ev.get_params(deep=False)
+                        s2 = {k2: _snapshot(v2) for k2, v2 in b2.items()}
+                        with joblib.parallel_backend("threading"):
+                            with time_limit(budget_s):
+                                ev.fit(*fit_args(fam, name, D)[0], **fit_args(fam, name, D)[1])
+                        a2 = ev.get_params(deep=False)
+                    for i, pn in enumerate(obs["params"]):
+                        if pn not in b2 or pn not in a2 or obs["fit"][i] == "W":
+                            continue
+                        if a2[pn] is not b2[pn]:
+                            obs["fit"][i] = "W"
+                        elif _snapshot(a2[pn]) != s2[pn]:
+                            obs["fit"][i] = "Wm"
+                    obs["fitdiag"] += " [variant refit=%s ok]" % P.get("refit") if "refit" in P else ""
+                except _Timeout:
+                    pass
+                except BaseException as e:
+                    if isinstance(e, (KeyboardInterrupt, SystemExit)):
+                        raise
+                    obs["fitdiag"] += " variant fit failed: %s %s" % (canon_err(e), str(e)[:60])
         # clone of the fitted estimator: every apply-type method must raise NotFittedError again
         try:
             from sklearn.base import clone
